@@ -2,7 +2,10 @@
 // move-ordering histories).  It runs the real implementation (/repo, -tags verif) and the compiled
 // Lean models + specs (drv_heur) on the same inputs and reports every difference.
 //
-//	heur -suite c18|c16 -tier quick|thorough -seed N -driver drv_heur -out r.json
+//	heur -suite c18|c16|c16light -tier quick|thorough -seed N -driver drv_heur -out r.json
+//
+// c16light is the picker comparison of c16 on a small directed position set, registered under C01
+// (the move iteration of the search contains no move twice).
 package main
 
 import (
@@ -50,6 +53,9 @@ func main() {
 	case "c16":
 		e.r = common.NewResult(c, "heur/c16", "C16")
 		e.c16()
+	case "c16light":
+		e.r = common.NewResult(c, "heur/c16light", "C01")
+		e.c16light()
 	default:
 		panic("unknown suite " + *suite)
 	}
@@ -680,6 +686,55 @@ func runPicker(b *board.Board, hm move.Move, ms *move.Store, mr *heur.MoveRanker
 	return
 }
 
+// pickerVerdict checks the property directly on one drained picker run with hash move hm: the yielded
+// multiset is the generated move list (all / gen), nothing twice, nothing foreign, nothing missing; the
+// hash move comes first (with the HashMove weight) iff it is pseudo-legal; every weight lies in the band
+// of its stage; no panic.  bad == "" means the run satisfies it.  goodCaps / badCaps count the noisy
+// moves yielded with a good / bad capture weight.
+func pickerVerdict(b *board.Board, hm move.Move, res pickResult, all []move.Move, gen map[move.Move]bool) (bad string, ipl bool, goodCaps, badCaps int) {
+	ipl = b.IsPseudoLegal(hm)
+	seen := map[move.Move]int{}
+	for _, w := range res.seq {
+		seen[w.Move]++
+	}
+	for mv, c := range seen {
+		if c > 1 {
+			bad = fmt.Sprintf("move %d (%s) yielded %d times", mv, mv, c)
+		}
+		if !gen[mv] {
+			bad = fmt.Sprintf("move %d (%s) yielded but not generated", mv, mv)
+		}
+	}
+	for _, mv := range all {
+		if seen[mv] == 0 {
+			bad = fmt.Sprintf("generated move %d (%s) never yielded", mv, mv)
+		}
+	}
+	if ipl != (len(res.seq) > 0 && res.seq[0].Move == hm && res.seq[0].Weight == heur.HashMove) {
+		// a generated move can come first by rank only with a weight below HashMove
+		bad = fmt.Sprintf("hash move %d pseudo-legal=%v but first yielded entry is %v", hm, ipl, firstOf(res.seq))
+	}
+	for ix, w := range res.seq {
+		if ix == 0 && ipl {
+			continue
+		}
+		isNoisy := b.SquaresToPiece[b.CaptureSq(w.Move)] != NoPiece || w.Move.Promo() != NoPiece
+		switch {
+		case isNoisy && w.Weight >= heur.Captures && w.Weight < heur.Captures+heur.CaptureRange:
+			goodCaps++
+		case isNoisy && w.Weight >= -heur.Captures-heur.CaptureRange && w.Weight < -heur.Captures:
+			badCaps++
+		case !isNoisy && w.Weight >= -3*heur.MaxHistory && w.Weight <= 3*heur.MaxHistory:
+		default:
+			bad = fmt.Sprintf("weight %d of move %d (%s) outside its band", w.Weight, w.Move, w.Move)
+		}
+	}
+	if res.panicked {
+		bad = fmt.Sprintf("picker panicked after %d yields (of %d generated moves): %s", len(res.seq), len(all), res.panicMsg)
+	}
+	return
+}
+
 func (e *env) c16() {
 	n := e.c.Pick(600, 30000)
 	nRandom := e.c.Pick(200, 30)
@@ -1016,49 +1071,8 @@ func (e *env) c16() {
 			if res.panicked {
 				impl = "panic"
 			}
-			ipl := b.IsPseudoLegal(hm)
 			// the property, directly
-			bad := ""
-			seen := map[move.Move]int{}
-			for _, w := range res.seq {
-				seen[w.Move]++
-			}
-			for mv, c := range seen {
-				if c > 1 {
-					bad = fmt.Sprintf("move %d (%s) yielded %d times", mv, mv, c)
-				}
-				if !gen[mv] {
-					bad = fmt.Sprintf("move %d (%s) yielded but not generated", mv, mv)
-				}
-			}
-			for _, mv := range all {
-				if seen[mv] == 0 {
-					bad = fmt.Sprintf("generated move %d (%s) never yielded", mv, mv)
-				}
-			}
-			if ipl != (len(res.seq) > 0 && res.seq[0].Move == hm && res.seq[0].Weight == heur.HashMove) {
-				// a generated move can come first by rank only with a weight below HashMove
-				bad = fmt.Sprintf("hash move %d pseudo-legal=%v but first yielded entry is %v", hm, ipl, firstOf(res.seq))
-			}
-			goodCaps, badCaps := 0, 0
-			for ix, w := range res.seq {
-				if ix == 0 && ipl {
-					continue
-				}
-				isNoisy := b.SquaresToPiece[b.CaptureSq(w.Move)] != NoPiece || w.Move.Promo() != NoPiece
-				switch {
-				case isNoisy && w.Weight >= heur.Captures && w.Weight < heur.Captures+heur.CaptureRange:
-					goodCaps++
-				case isNoisy && w.Weight >= -heur.Captures-heur.CaptureRange && w.Weight < -heur.Captures:
-					badCaps++
-				case !isNoisy && w.Weight >= -3*heur.MaxHistory && w.Weight <= 3*heur.MaxHistory:
-				default:
-					bad = fmt.Sprintf("weight %d of move %d (%s) outside its band", w.Weight, w.Move, w.Move)
-				}
-			}
-			if res.panicked {
-				bad = fmt.Sprintf("picker panicked after %d yields (of %d generated moves): %s", len(res.seq), len(all), res.panicMsg)
-			}
+			bad, ipl, goodCaps, badCaps := pickerVerdict(b, hm, res, all, gen)
 			if st := stageOf[hm]; ipl && st != 0 {
 				// what is left in the hash move's own stage once it is out
 				left := nGood - 1
@@ -1117,4 +1131,324 @@ func firstOf(ws []wm) string {
 		return "none"
 	}
 	return fmt.Sprintf("%d:%d", ws[0].Move, ws[0].Weight)
+}
+
+// ---------------------------------------------------------------------------------------------
+// C01 (light): the move iteration the search uses (picker.Picker) contains every generated move once.
+
+// promoPos builds a position whose side to move has pawns on its seventh rank with push promotions
+// (vacant square ahead), capture promotions (enemy pieces on the last rank beside the file) and blocked
+// pushes; the other side has a pawn about to promote sometimes.  White frame, mirrored for Black.
+func promoPos(rng *rand.Rand) (posgen.Pos, bool) {
+	var p posgen.Pos
+	p.Full = 1 + rng.IntN(60)
+	p.Half = 0
+	put := func(s int, m int8) bool {
+		if p.Men[s] != 0 {
+			return false
+		}
+		p.Men[s] = m
+		return true
+	}
+	np := 1 + rng.IntN(4)
+	for _, f := range rng.Perm(8)[:np] {
+		put(48+f, gP)
+		// the square ahead: vacant mostly, else a blocker of either colour
+		switch rng.IntN(6) {
+		case 0:
+			put(56+f, gman(true, gN+rng.IntN(4)))
+		case 1:
+			put(56+f, gman(false, gN+rng.IntN(3)))
+		}
+		for _, df := range []int{-1, 1} {
+			if f+df >= 0 && f+df < 8 && rng.IntN(2) == 0 {
+				put(56+f+df, gman(true, gN+rng.IntN(4)))
+			}
+		}
+	}
+	if rng.IntN(3) == 0 {
+		put(8+rng.IntN(8), gman(true, gP))
+	}
+	if rng.IntN(3) == 0 {
+		put(16+rng.IntN(32), gman(rng.IntN(2) == 0, gN+rng.IntN(4)))
+	}
+	var free []int
+	for s := 0; s < 64; s++ {
+		if p.Men[s] == 0 {
+			free = append(free, s)
+		}
+	}
+	wk := free[rng.IntN(len(free))]
+	bk := free[rng.IntN(len(free))]
+	if max(iabs(wk%8-bk%8), iabs(wk/8-bk/8)) <= 1 {
+		return p, false
+	}
+	p.Men[wk], p.Men[bk] = gK, gman(true, gK)
+	if p.InCheck(true) {
+		return p, false
+	}
+	if rng.IntN(2) == 0 {
+		p = p.Mirror()
+	}
+	return p, true
+}
+
+type lightPos struct{ fen, src string }
+
+// runPickerAsSearch drains the picker the way search.alphaBeta does: after each yielded move it writes
+// into the Weight field of the yielded entry (the search stores the move's value there, or -Inf for an
+// upper bound, for MoveRanker.FailHigh to read later) before it asks for the next move.  seq holds
+// the entries as they were yielded.
+func runPickerAsSearch(b *board.Board, hm move.Move, ms *move.Store, mr *heur.MoveRanker, hs *stack.Stack[heur.StackMove]) (res pickResult) {
+	defer func() {
+		if r := recover(); r != nil {
+			res.panicked = true
+			res.panicMsg = fmt.Sprint(r)
+		}
+	}()
+	ms.Clear()
+	p := picker.New(b, hm, ms, mr, hs)
+	ms.Push()
+	for p.Next() {
+		w := p.Move()
+		res.seq = append(res.seq, *w)
+		if len(res.seq)%2 == 1 {
+			w.Weight = -Inf
+		} else {
+			w.Weight = Score(len(res.seq)*37%4001 - 2000)
+		}
+		if len(res.seq) > 1000 {
+			break
+		}
+	}
+	ms.Pop()
+	return
+}
+
+// afterPush plays the double push of a pre-push en-passant case on the real board and returns the FEN
+// of the position after it if the engine recorded a target there (a legal en-passant capture exists).
+func (e *env) afterPush(ec posgen.EPCase) (string, bool) {
+	b, err := board.FromFEN(ec.Pos.FEN())
+	if err != nil || b.InvalidPieceCount() {
+		return "", false
+	}
+	push := move.From(Square(ec.From)) | move.To(Square(ec.To))
+	found := false
+	for _, m := range implutil.Legal(b) {
+		if m == push {
+			found = true
+		}
+	}
+	if !found {
+		return "", false
+	}
+	b.MakeMove(push)
+	if b.EnPassant == 0 {
+		return "", false
+	}
+	return b.FEN(), true
+}
+
+func (e *env) c16light() {
+	rng := e.c.Rng
+	e.r.Rule = "the search's move iteration (picker.Picker drained as search.alphaBeta does) on a small DIRECTED position set: posgen.EPTargetSweep (every en-passant target square x capturer configuration, bare and with filler), positions after the double push of EPGeometry / EPWrap cases in which the engine recorded the target (discovered checks, pinned capturers, two capturers, edge files), posgen.CastlePathSweep (every right x path square x occupant kind, and the vacant paths), promotion positions (1-4 pawns on the seventh / second rank with push promotions, capture promotions to both sides and blocked pushes, both colours), the stage-poor and stage-rich corpora (0/1/2 moves per stage; 218 moves), the start position, a few test-suite roots and constructive samples; x {no hash move, EVERY generated move, 4 invalid encodings (promotion flag on a generated move, same origin other destination, random words)} x two history states (fresh tables with an empty stack; tables saturated by >= 5000 identical FailHigh updates on several positions, with a non-empty stack); per run the sequence (move, weight) of the real picker vs the Lean picker model (every 8th run also exhaustion + YieldedMoves()), and directly in Go: yielded multiset = GenNoisy + GenNotNoisy, NO MOVE TWICE, none missing, none foreign, hash move first iff IsPseudoLegal, weights within the stage bands, no panic; every run is repeated (Go only) with the search's write-back of the move value / -Inf into the Weight of each yielded entry between Next() calls: same assertions and the same yielded sequence; evaluations = picker runs; non-trivial = run whose hash move is pseudo-legal, distinct by (FEN, hash move, history state)"
+	var set []lightPos
+	add := func(fen, src string) { set = append(set, lightPos{fen, src}) }
+	for _, f := range posgen.EPTargetSweep() {
+		add(f, "eptargets")
+	}
+	for got, try := 0, 0; got < 30 && try < 600; try++ {
+		if ec, kind, ok := posgen.EPGeometry(rng); ok {
+			if f, ok := e.afterPush(ec); ok {
+				add(f, "epgeometry-"+kind)
+				got++
+			}
+		}
+	}
+	for got, try := 0, 0; got < 30 && try < 600; try++ {
+		if ec, _, ok := posgen.EPWrap(rng); ok {
+			if f, ok := e.afterPush(ec); ok {
+				add(f, "epwrap")
+				got++
+			}
+		}
+	}
+	for i := 0; i < posgen.CastleSweepSize; i++ {
+		if cc, ok := posgen.CastlePathSweep(rng, i, false); ok {
+			add(cc.Pos.FEN(), "castlesweep")
+		}
+		if i%4 == 0 {
+			if cc, ok := posgen.CastlePathSweep(rng, i, true); ok {
+				add(cc.Pos.FEN(), "castlesweep-filler")
+			}
+		}
+	}
+	// the vacant paths (castling is generated when the owner is to move) with filler material, a few times
+	for k := 0; k < 24; k++ {
+		if cc, ok := posgen.CastlePathSweep(rng, k%4, true); ok && cc.OwnerToMove {
+			add(cc.Pos.FEN(), "castlesweep-vacant")
+		}
+	}
+	for got, try := 0, 0; got < 40 && try < 400; try++ {
+		if p, ok := promoPos(rng); ok {
+			add(p.FEN(), "promo")
+			got++
+		}
+	}
+	for _, f := range posgen.StagePoorCorpus {
+		add(f, "stagepoor-corpus")
+	}
+	for _, f := range posgen.StageRichCorpus {
+		add(f, "stagerich-corpus")
+	}
+	add("rnbqkbnr/pppppppp/8/8/8/8/PPPPPPPP/RNBQKBNR w KQkq - 0 1", "startpos")
+	for k := 0; k < 5 && len(e.s.Roots) > 0; k++ {
+		add(e.s.Roots[rng.IntN(len(e.s.Roots))], "root")
+	}
+	for got, try := 0, 0; got < 5 && try < 100; try++ {
+		if p, ok := posgen.Construct(rng, posgen.Profile(rng.IntN(4))); ok {
+			add(p.FEN(), "construct")
+			got++
+		}
+	}
+
+	ms := move.NewStore()
+	mr := heur.NewMoveRanker()
+	e.m.Batch([]string{"new"})
+	for pass := 0; pass < 2; pass++ {
+		state := "fresh"
+		var st []stackEntry
+		if pass == 1 {
+			state = "saturated"
+			st = []stackEntry{{1, 36, 700}, {2, 21, -300}, {1, 27, 150}}
+			// saturate: on a few positions of the set, >= 5000 identical updates with extreme depths
+			for k := 0; k < 6; k++ {
+				lp := set[rng.IntN(len(set))]
+				b, valid := e.load("C01", lp.fen)
+				if b == nil || !valid {
+					continue
+				}
+				noisy, quiet := implutil.Gen(b)
+				all := append(append([]move.Move{}, noisy...), quiet...)
+				if len(all) == 0 {
+					continue
+				}
+				hs := goStack(st)
+				cnt := 1 + rng.IntN(min(8, len(all)))
+				ws := make([]wm, cnt)
+				for j := range ws {
+					ws[j] = wm{Move: all[rng.IntN(len(all))], Weight: Score(rng.IntN(4001) - 2000)}
+				}
+				d := []int{127, 100, -128, 60, 52, 127}[k]
+				reps := 5000 + rng.IntN(1000)
+				panicked := false
+				func() {
+					defer func() {
+						if r := recover(); r != nil {
+							panicked = true
+						}
+					}()
+					for x := 0; x < reps; x++ {
+						mr.FailHigh(Depth(d), b, ws, hs)
+					}
+				}()
+				line := fmt.Sprintf("fh %d %d %s", reps, d, wmsStr(ws))
+				if panicked {
+					e.r.Fail(common.Mismatch{Property: "C01", Kind: "failing-input", Ops: []string{"fen " + lp.fen, stackLine(st), line}, Impl: "panic", Note: "FailHigh panicked"})
+					continue
+				}
+				e.m.Batch([]string{stackLine(st), line})
+				e.r.Count("saturating-scripts", 1)
+			}
+		}
+		hs := goStack(st)
+		for _, lp := range set {
+			b, valid := e.load("C01", lp.fen)
+			if b == nil || !valid {
+				e.r.Count("skipped-invalid:"+lp.src, 1)
+				continue
+			}
+			if pass == 0 {
+				e.r.Count("pos:"+lp.src, 1)
+			}
+			noisy, quiet := implutil.Gen(b)
+			all := append(append([]move.Move{}, noisy...), quiet...)
+			gen := map[move.Move]bool{}
+			for _, m := range all {
+				gen[m] = true
+			}
+			hms := append([]move.Move{0}, all...)
+			if len(all) > 0 {
+				hms = append(hms,
+					all[rng.IntN(len(all))]&0x0fff|move.Move(1+rng.IntN(7))<<12,
+					all[rng.IntN(len(all))]&0x7fc0|move.Move(rng.IntN(64)))
+			}
+			hms = append(hms, move.Move(rng.IntN(1<<15)), move.Move(rng.IntN(1<<15)))
+			reqs := []string{stackLine(st)}
+			for k, hm := range hms {
+				if k%8 == 0 {
+					reqs = append(reqs, "pickx "+strconv.Itoa(int(hm)))
+				} else {
+					reqs = append(reqs, "pick "+strconv.Itoa(int(hm)))
+				}
+			}
+			ans := e.m.Batch(reqs)
+			for k, hm := range hms {
+				res := runPicker(b, hm, ms, &mr, hs)
+				e.r.Evaluations++
+				ops := []string{"fen " + lp.fen, "(history state: " + state + ")", reqs[0], reqs[1+k]}
+				impl := wmsStr(res.seq)
+				if k%8 == 0 {
+					impl += "|1|" + wmsStr(res.final)
+				}
+				if res.panicked {
+					impl = "panic"
+				}
+				bad, ipl, _, _ := pickerVerdict(b, hm, res, all, gen)
+				if ipl {
+					e.r.Nontrivial(fmt.Sprintf("%s %d %s", lp.fen, hm, state))
+					what := "quiet"
+					d := int(hm.To()) - int(hm.From())
+					switch {
+					case b.SquaresToPiece[hm.From()] == Pawn && b.EnPassant != 0 && hm.To() == b.EnPassant:
+						what = "en-passant"
+					case hm.Promo() != NoPiece && b.SquaresToPiece[hm.To()] != NoPiece:
+						what = "capture-promotion"
+					case hm.Promo() != NoPiece:
+						what = "promotion"
+					case b.SquaresToPiece[hm.To()] != NoPiece:
+						what = "capture"
+					case b.SquaresToPiece[hm.From()] == King && (d == 2 || d == -2):
+						what = "castling"
+					}
+					e.r.Count("hash:"+what, 1)
+				} else if hm != 0 {
+					e.r.Count("hash:rejected", 1)
+				} else {
+					e.r.Count("hash:none", 1)
+				}
+				if bad != "" {
+					e.r.Fail(common.Mismatch{Property: "C01", Kind: "failing-input", Ops: ops, Impl: impl, Model: ans[1+k],
+						Spec: implutil.MovesStr(all), Note: "the search's move iteration: " + bad})
+				} else if impl != ans[1+k] {
+					e.r.Fail(common.Mismatch{Property: "C01", Kind: "broken-correspondence", Ops: ops, Impl: impl, Model: ans[1+k]})
+				}
+				// the same run with the search's write-back into the yielded entries (Go only): the direct
+				// assertions, and the same sequence of moves as without the write-back
+				res2 := runPickerAsSearch(b, hm, ms, &mr, hs)
+				e.r.Evaluations++
+				bad2, _, _, _ := pickerVerdict(b, hm, res2, all, gen)
+				if bad2 == "" && bad == "" && wmsStr(res2.seq) != wmsStr(res.seq) {
+					bad2 = "writing the searched value into the yielded entries changes what is yielded afterwards"
+				}
+				if bad2 != "" && bad == "" {
+					e.r.Fail(common.Mismatch{Property: "C01", Kind: "failing-input", Ops: append(ops, "(caller overwrites Weight of each yielded entry, as search.alphaBeta does)"),
+						Impl: wmsStr(res2.seq), Model: ans[1+k], Spec: implutil.MovesStr(all), Note: "the search's move iteration: " + bad2})
+				}
+				if pass == 0 && k == 1 && len(e.r.Samples) < 3 {
+					e.r.Sample(map[string]any{"fen": lp.fen, "hash": hm.String(), "yielded": impl}, 3)
+				}
+			}
+		}
+	}
 }
